@@ -1878,6 +1878,11 @@ def t3_conflict(ctx):
                         {'op': 'conflict', 'fields': sig, 'cfg': cfg})
 
 
+def nofreq_of(t):
+    """validate_freq=False is a class attribute: a class that extends such a class inherits it"""
+    return bool(t.get('nofreq')) or ('base' in t and nofreq_of(t['base']))
+
+
 def conforms_nf(fields, val):
     """`conforms`, with the occurrence checks switched off inside (and below) a class with validate_freq=False"""
     for (n, v), f in zip(val['o'], fields):
@@ -1891,7 +1896,7 @@ def conforms_nf(fields, val):
                 return False
             if len(v['l']) < f['min']:
                 return False
-        if t['k'] == 'obj' and not t.get('nofreq'):
+        if t['k'] == 'obj' and not nofreq_of(t):
             for e in (v['l'] if f['many'] else [v]):
                 if not conforms_nf(t['fields'], e):
                     return False
